@@ -17,7 +17,9 @@ RULE = ('class models with Any / untyped / _yatiml_extra positions x valid and i
         '!!python/object, !!python/object/apply, !!python/name, !!python/module, core tags); on the real '
         'code: every constructor call logged is for an object that ends up in the result at a position '
         'whose type admits it, Any/untyped/extra positions hold plain data, nothing named by a tag is '
-        'imported or called (canary module, os.system trap).  Non-trivial = at least one injected tag.')
+        'imported or called (canary module, os.system trap).  Non-trivial = at least one injected tag.'
+        'Directed families: untyped regions with tags at values / keys / complex keys, a key'
+        ' spelt _yatiml_extra, dashed or repeated untyped attributes, merge keys.')
 ASSUMPTIONS = ['yatiml.Loader derives from yaml.SafeLoader (checked on every run)']
 
 CANARY = 'colorsys'
